@@ -505,7 +505,7 @@ func refQuery(q *Query, data map[string][]*triple.Triple) (cols []string, rows [
 }
 
 // rowKey renders a row for multiset comparison. Float sums are compared with a
-// tolerance elsewhere; here they are rounded to 9 significant digits.
+// tolerance elsewhere; here they are rendered with 13 significant digits (see sameUpToFloatSums).
 func rowKey(r []Val) string {
 	parts := make([]string, len(r))
 	for i, v := range r {
@@ -513,7 +513,7 @@ func rowKey(r []Val) string {
 		if strings.HasPrefix(s, "SUMF|") {
 			var bits uint64
 			fmt.Sscanf(s[5:], "%x", &bits)
-			s = fmt.Sprintf("L|float64~%.9g", math.Float64frombits(bits))
+			s = fmt.Sprintf("L|float64~%.13g", math.Float64frombits(bits))
 		}
 		parts[i] = s
 	}
